@@ -21,6 +21,7 @@ type T struct {
 	A  []*T
 	N  []string // field names for "struct"
 	Ty types.Type
+	FV map[string]int // struct-typed heap load: per-field version at load time (see mksel)
 	k  string
 }
 
@@ -132,6 +133,13 @@ func mksel(x *T, f string, ty types.Type) *T {
 	}
 	if x.Op == "zero" {
 		return zeroOf(ty)
+	}
+	if x.E != 0 && x.FV != nil {
+		// a field of a struct loaded as a whole is the field loaded at that moment:
+		// `t := p.tok; t.typ` and `p.tok.typ` are one term
+		base := *x
+		base.E, base.FV, base.k = 0, nil, ""
+		return &T{Op: "sel", S: f, A: []*T{&base}, E: x.E + x.FV[f], Ty: ty}
 	}
 	return &T{Op: "sel", S: f, A: []*T{x}, Ty: ty}
 }
